@@ -32,6 +32,7 @@ def setup(ctx: Any) -> None:
 def gen_case(rnd, tier: str, i: Any) -> Dict[str, Any]:
     n_ranks = rnd.choice([1, 1, 1, 2])
     files = {}
+    sub_us = False
     first_step = gen_sim.pick_first_step(rnd, 3)
     big = rnd.random() < 0.15
     for r in range(n_ranks):
@@ -45,6 +46,17 @@ def gen_case(rnd, tier: str, i: Any) -> Dict[str, Any]:
             for k, e in enumerate(tr["traceEvents"]):
                 if k > 0 and e.get("ph") == "X" and e.get("cat") in ("cuda_runtime", "cuda_driver") and isinstance(e.get("args"), dict) and rnd.random() < 0.5:
                     e["args"]["stream"] = rnd.choice(["0x0", "0x55d0c8a0", "0x7f3a00001c00"])
+        if rnd.random() < 0.2:
+            # nanosecond-resolution device records shorter than 1us that contain no whole microsecond: inward rounding leaves
+            # them with end < ts; they are still the partners of their launches
+            n_sub = 0
+            for k, e in enumerate(tr["traceEvents"]):
+                if k > 0 and e.get("ph") == "X" and e.get("cat") in ("kernel", "gpu_memcpy", "gpu_memset") and isinstance(e.get("ts"), int) and rnd.random() < 0.3:
+                    e["ts"] = e["ts"] + 0.25
+                    e["dur"] = 0.5
+                    n_sub += 1
+            if n_sub:
+                sub_us = True
         files[f"rank{r}.json"] = tr
     mode = rnd.choice(["parse", "load"])
     if mode == "parse" and rnd.random() < 0.4:
@@ -54,8 +66,8 @@ def gen_case(rnd, tier: str, i: Any) -> Dict[str, Any]:
             for e in tr["traceEvents"]:
                 if e.get("cat") == "cuda_sync" and e.get("name") in ("Context Sync", "Event Sync") and isinstance(e.get("args"), dict) and rnd.random() < 0.6:
                     e["args"].pop("correlation", None)
-    return {"files": files, "cfg": {"mode": mode, "mp": rnd.random() < 0.3, "inc_last": rnd.random() < 0.5,
-                                    "parser": rnd.choice(drv.PARSER_VARIANTS)}}
+    return {"files": files, "sub_us": sub_us, "cfg": {"mode": mode, "mp": rnd.random() < 0.3, "inc_last": rnd.random() < 0.5,
+                                                      "parser": rnd.choice(drv.PARSER_VARIANTS)}}
 
 
 def fixed_cases(tier: str):
@@ -78,7 +90,7 @@ def run_case(case: Dict[str, Any], ctx: Any) -> core.CaseResult:
     models = {}
     for fn, tr in case["files"].items():
         m = raw.model(tr["traceEvents"])
-        why = wf.well_formed(m, tr["traceEvents"])
+        why = wf.well_formed(m, tr["traceEvents"], rounded_away_device_ok=bool(case.get("sub_us")))
         if why:
             res.discarded, res.discard_reason = True, "not well-formed: " + why.split(":")[0]
             return res
@@ -88,6 +100,8 @@ def run_case(case: Dict[str, Any], ctx: Any) -> core.CaseResult:
         core.write_trace_files(d, case["files"])
         t = drv.new_trace(d, parser=cfg.get("parser"))
         res.counters[f"parser_{cfg.get('parser', 'default')}"] += 1
+        if case.get("sub_us") and case.get("time_unit", 1) == 1:
+            res.counters["cases_with_device_records_rounded_to_negative_length"] += 1
         if cfg["mode"] == "parse":
             ok, _ = drv.guard(res, "parse_traces", t.parse_traces, use_multiprocessing=cfg["mp"])
         else:
